@@ -272,7 +272,7 @@ pub trait Property: Sync {
     /// number of workers wanted (default: all cores)
     fn workers(&self, _tier: Tier) -> usize { 16 }
     /// driver-side extra step after the workers are done (used by C01 to compare transcripts across processes)
-    fn post(&self, _tier: Tier, _seed: u64, _results: &[Value]) -> Vec<(String, Value, Value)> { vec![] }
+    fn post(&self, _tier: Tier, _seed: u64, _results: &[Value], _extra: &mut BTreeMap<String, Value>) -> Vec<(String, Value, Value)> { vec![] }
 }
 
 /// Runs one enumerated case (no shrinking by proptest; `minimise` may be used by the caller).
@@ -332,6 +332,14 @@ pub fn run_tape_batches(p: &dyn Property, ctx: &mut Ctx, label: &str, total_case
         drop(cell);
         match res {
             Ok(()) => {}
+            Err(TestError::Fail(reason, tape)) if last_fail.borrow().is_none() => {
+                // the oracle itself panicked on this case (proptest turns a panic into a failure): never swallow it
+                crate::api::set_shrinking(false);
+                ctx.shrink_target = None; ctx.counting = false;
+                let case = decode(&mut Tape::new(&tape)).unwrap_or(Value::Null);
+                ctx.violation(&format!("the check's own code panicked on a case: {}", reason.message().lines().next().unwrap_or("")), &case, &json!({"reason": reason.message()}));
+                failures_here += 1;
+            }
             Err(TestError::Fail(_, _)) | Err(TestError::Abort(_)) => {
                 crate::api::set_shrinking(false);
                 if let Some((sig, case, detail)) = last_fail.borrow_mut().take() {
@@ -495,7 +503,7 @@ pub fn driver_main(p: &dyn Property, tier: Tier, seed: u64) -> i32 {
             for v in a { violations.push((v[0].as_str().unwrap_or("").to_string(), v[1].as_str().unwrap_or("").to_string())); }
         }
     }
-    for (sig, case, detail) in p.post(tier, seed, &results) {
+    for (sig, case, detail) in p.post(tier, seed, &results, &mut extra) {
         let mut c = Ctx::new(id, tier, seed, 0, 1);
         if let Some(k) = c.known.iter().find(|k| sig_matches(&k.signature, &sig)) { *known_hits.entry(format!("{} | {}", k.listed_as, k.what)).or_insert(0) += 1; continue; }
         c.violation(&sig, &case, &detail);
